@@ -360,8 +360,8 @@ def infer_atom(context, atom):
             array_node_c = array_node.children
         except AttributeError:
             array_node_c = []
-        if c[0] == '{' and (array_node == '}' or ':' in array_node_c
-                            or '**' in array_node_c):
+        if c[0] == '{' and (array_node == '}' or array_node.type == 'dictorsetmaker'
+                            and (':' in array_node_c or '**' in array_node_c)):
             new_value = iterable.DictLiteralValue(state, context, atom)
         else:
             new_value = iterable.SequenceLiteralValue(state, context, atom)
